@@ -21,11 +21,12 @@ def install(state, spec):
     wrapped = tu._compute_type_variable_assignments
 
     def _w_judge(type_parameters, types, type_var_map=None, variance_choices=None, for_type_constructor=True):
+        pre = dict(type_var_map or {})
         r = wrapped(type_parameters, types, type_var_map=type_var_map, variance_choices=variance_choices,
                     for_type_constructor=for_type_constructor)
         if type_parameters and len(state["judge"]) < PER_PROGRAM:
             try:
-                state["judge"].append([list(x) for x in inst_lib.py_judge(list(type_parameters), r[1], list(r[0]), top)])
+                state["judge"].append([list(x) for x in inst_lib.py_judge(list(type_parameters), r[1], list(r[0]), top, pre)])
             except Exception as e:
                 state["judge"].append([["?", "judge-error:" + repr(e)]])
         return r
